@@ -28,8 +28,9 @@ namespace {
 
 const char* kBehaviours[] = { "orderly", "close-mid-request", "half-close", "rst-idle", "rst-unread", "rst-pending",
                               "silence", "partial-then-silence", "tmo", "tmoreply", "file", "file-abort", "async-abort", "never-close", "stream",
-                              "silence-close-near-timeout", "silence-abort-near-timeout", "stall-beyond-timeout" };
-constexpr int kNumBeh = 18;
+                              "silence-close-near-timeout", "silence-abort-near-timeout", "stall-beyond-timeout",
+                              "abandon-at-once-close", "abandon-at-once-abort", "abandon-at-once-half-close" };
+constexpr int kNumBeh = 21;
 
 Json gen(sim::Rng& rng, int tier)
 {
@@ -53,7 +54,7 @@ Json gen(sim::Rng& rng, int tier)
             c["size"] = static_cast<long>(rng.chance(0.5) ? rng.below(2000) : 20000 + rng.below(200000));
             c["cut_permille"] = static_cast<int>(1 + rng.below(998));
             c["start_us"] = static_cast<int>(rng.below(3000));
-            c["delay_us"] = static_cast<int>(rng.below(20000));
+            c["delay_us"] = rng.chance(0.35) ? 0 : static_cast<int>(rng.below(20000));
             c["sndbuf"] = rng.chance(0.5) ? 4096L : 65536L;
             c["near_ms"] = static_cast<int>(rng.below(1400)) - 700; // offset from the header time-out
             conns.push(c);
@@ -192,6 +193,18 @@ void run(const Json& plan)
                 st.push_back(httpw::send_step(full.substr(0, cut)));
                 st.push_back(httpw::step(Step::Pause, delay));
                 st.push_back(httpw::step(Step::Close));
+            } else if (b.compare(0, 15, "abandon-at-once") == 0) {
+                // bytes that get no answer, and the end of the stream right behind them (one wake-up at the server)
+                std::string full = http ? req("/echo/" + tag, actors::pattern(1, 200)) : std::string("hello without a number\n");
+                size_t cut = std::max<size_t>(1, full.size() * static_cast<size_t>(c.num("cut_permille", 500)) / 1000);
+                st.push_back(httpw::send_step(http ? full.substr(0, cut) : full));
+                if (b == "abandon-at-once-close") st.push_back(httpw::step(Step::Close));
+                else if (b == "abandon-at-once-abort") st.push_back(httpw::step(Step::Abort));
+                else {
+                    st.push_back(httpw::step(Step::ShutdownWr));
+                    st.push_back(httpw::step(Step::AwaitClose, (std::max(hto, bto) + 2000) * 1000000LL));
+                    st.push_back(httpw::step(Step::Close));
+                }
             } else if (b == "half-close") {
                 st.push_back(httpw::send_step(req("/size/" + std::to_string(size) + "/" + tag)));
                 st.push_back(httpw::step(Step::ShutdownWr));
